@@ -69,9 +69,7 @@ func newKR920Band(repeaterCompatible bool) (Band, error) {
 				2: {2, 1, 0, 0, 0, 0, 3, 4},
 				3: {3, 2, 1, 0, 0, 0, 4, 5},
 				4: {4, 3, 2, 1, 0, 0, 5, 5},
-				5: {5, 4, 3, 2, 1, 0, 5, 7},
-				6: {0, 0, 0, 0, 0, 0, 0, 0},
-				7: {7, 5, 5, 4, 3, 2, 7, 7},
+				5: {5, 4, 3, 2, 1, 0, 5, 5},
 			},
 			txPowerOffsets: []int{
 				0,
